@@ -1,15 +1,27 @@
 /-
-  Property C06, tie A — the facts re-extracted from net/oneway/OneWayTcpClient.go on this run
-  (Golib/Gen/C06.lean, written by xlate/c06) are the ones the CodeModel assumes, and the C06
-  theorems hold for the model configuration derived from the source text.
+  Property C06, tie A — what xlate/c06 re-extracted from net/oneway/OneWayTcpClient.go on this run
+  (Golib/Gen/C06.lean) is what the CodeModel assumes.
 
-  If sendDirect stops taking the send lock first, if process() calls Connect outside the lock,
-  if a Close appears or disappears on an error path, if another goroutine starts taking from the
-  queue, if makeData picks the license differently — the generated record changes and
-  `facts_match` no longer checks.
+  Two layers.
+  * Facts (`Gen.C06.facts`): call sequences, lock placement, error paths, queue consumers,
+    goroutines, license choice — compared with `Tcp.assumed` by `decide`.
+  * Programs (`Gen.C06.progs`): the *statements* of sendDirect, send, process() and ApplyConfig,
+    transcribed into `Tcp.Stmt`.  They are given a semantics (`Tcp.interpSender`, `Tcp.interpProc`:
+    the transcribed code is executed against an environment and yields model actions) and proved
+    to produce, for every environment / thread / send id / frame length, exactly the model's own
+    per-call programs `directActs` / `procActs` — the action lists the driver replays on the
+    harness's observations and the recovery theorems run on the machine.  The lock flags of the
+    model configuration are computed from the same programs (`Progs.cfg`), and the C06 theorems
+    are instantiated at that configuration.
+
+  If sendDirect stops taking the lock first, unlocks before Flush, closes on the wrong error path,
+  if process() connects or sends outside the lock, if ApplyConfig re-dials outside it, if send()
+  stops re-arming the deadline, if another goroutine starts taking from the queue, if makeData
+  picks the license differently — the generated data changes and an obligation here stops checking.
 -/
 import Golib.Gen.C06
 import Golib.Props.C06
+import Golib.Tcp.Refine
 
 namespace C06Gen
 open Tcp
@@ -27,26 +39,74 @@ theorem source_process_connect_locked : Gen.C06.facts.processConnectLocked = tru
 theorem source_single_consumer :
     Gen.C06.facts.goroutines = ["process"] ∧ "process" ∈ Gen.C06.facts.queueConsumers := by decide
 
-/-- the configuration of the model that corresponds to the source, in either mode, any queue capacity -/
-abbrev srcCfg (useQueue : Bool) (cap : Nat) : Cfg := cfgOf Gen.C06.facts useQueue cap
+/-! ### interpreted obligations -/
 
-theorem srcCfg_locked (q : Bool) (cap : Nat) : (srcCfg q cap).sendLocked = true ∧ (srcCfg q cap).bgLocked = true :=
-  ⟨source_send_locked, source_process_connect_locked⟩
+/-- the transcribed sendDirect (with the transcribed send()), executed against any environment,
+    performs exactly the model's program of a direct send -/
+theorem source_sendDirect_is_model (env : Env) (t sid len : Nat) :
+    interpSender Gen.C06.progs.send Gen.C06.progs.sendDirect env t sid len = some (directActs env t sid len) := by
+  obtain ⟨a, b, c, d, e⟩ := env
+  cases a <;> cases b <;> cases c <;> cases d <;> cases e <;> rfl
 
-/-- the theorems of Props/C06 at the configuration read off the source -/
-theorem source_frames_whole (q : Bool) (cap : Nat) (bytesOf : Nat → Bytes) (s : St)
-    (hr : Reach (srcCfg q cap) bytesOf s) (c : Nat) :
+/-- the transcribed body of process() for a queue item performs exactly the model's program -/
+theorem source_process_is_model (env : Env) (len : Nat) :
+    interpProc Gen.C06.progs.send Gen.C06.progs.procItem env len = some (procActs env len) := by
+  obtain ⟨a, b, c, d, e⟩ := env
+  cases a <;> cases b <;> cases c <;> cases d <;> cases e <;> rfl
+
+/-- the model configuration computed from the transcribed programs: everything under the send lock
+    (sendDirect; process()'s Connect and its sends; ApplyConfig's Close/Connect), deadline re-armed
+    before every write.  (`procLocked` / `acLocked` fail on the code before fix-D70.) -/
+theorem source_cfg (q : Bool) :
+    Gen.C06.progs.cfg q =
+      { useQueue := q, sendLocked := true, bgLocked := true, procLocked := true, acLocked := true, rearm := true } := by
+  cases q <;> decide
+
+/-- what `expand` replays for a direct send is the interpretation of the source -/
+theorem source_expand_direct (cfg : Cfg) (lenOf : Nat → Nat) (s : St) (t : Nat) (o : Outcome) :
+    some (expand cfg lenOf s (.direct t o)) =
+      interpSender Gen.C06.progs.send Gen.C06.progs.sendDirect (envOf s o) t s.nsid (lenOf s.nsid) := by
+  rw [source_sendDirect_is_model, expand_direct]
+
+/-- … and the interpreted successful send is a schedule of the machine from every reachable state with
+    the sender idle, the lock free and a clean writer: the code's actions are actions the model admits -/
+theorem source_send_admitted (bytesOf : Nat → Bytes) (hne : ∀ sid, bytesOf sid ≠ []) (s : St)
+    (hr : Reach (Gen.C06.progs.cfg false) bytesOf s) (t : Nat) (ht : t ≠ 0) (hidle : s.pc t = .idle)
+    (hlock : s.lock = none) (hclean : s.conn = none ∨ ∃ w, s.wr = some w ∧ s.err.get w = false) :
+    ∃ dial acts s', interpSender Gen.C06.progs.send Gen.C06.progs.sendDirect (Env.good dial) t s.nsid
+        (bytesOf s.nsid).length = some acts ∧
+      run (Gen.C06.progs.cfg false) bytesOf acts s = some s' ∧ (s.nsid, true) ∈ s'.results := by
+  have hc := source_cfg false
+  obtain ⟨dial, s', h1, h2⟩ := directActs_ok_admitted (Gen.C06.progs.cfg false) bytesOf (by rw [hc]) (by rw [hc])
+    (by rw [hc]) hne s hr t ht hidle hlock hclean
+  exact ⟨dial, _, s', source_sendDirect_is_model _ _ _ _, h1, h2⟩
+
+/-! ### the theorems of Props/C06 at the configuration read off the source -/
+
+abbrev srcCfg (useQueue : Bool) : Cfg := Gen.C06.progs.cfg useQueue
+
+theorem source_frames_whole (q : Bool) (bytesOf : Nat → Bytes) (s : St)
+    (hr : Reach (srcCfg q) bytesOf s) (c : Nat) :
     WholeThenTail bytesOf (s.log.get c) (s.delivered c) :=
-  C06.frames_whole_delivered _ bytesOf (srcCfg_locked q cap).1 s hr c
+  C06.frames_whole_delivered _ bytesOf (by rw [srcCfg, source_cfg]) s hr c
 
-theorem source_order_once (q : Bool) (cap : Nat) (bytesOf : Nat → Bytes) (s : St)
-    (hr : Reach (srcCfg q cap) bytesOf s) :
+theorem source_order_once (q : Bool) (bytesOf : Nat → Bytes) (s : St)
+    (hr : Reach (srcCfg q) bytesOf s) :
     (flatLogs s).Pairwise (· < ·) ∧ (flatLogs s).Sublist s.handed :=
-  let h := C06.order_once _ bytesOf (srcCfg_locked q cap).1 s hr
+  let h := C06.order_once _ bytesOf (by rw [srcCfg, source_cfg]) s hr
   ⟨h.1, h.2.2.2⟩
 
-theorem source_healthy_no_loss (q : Bool) (cap : Nat) (bytesOf : Nat → Bytes) (acts : List Act) (s : St)
-    (hh : Healthy acts) (h : run (srcCfg q cap) bytesOf acts init = some s) : NothingLost bytesOf s :=
-  C06.healthy_no_loss _ bytesOf (srcCfg_locked q cap).1 (srcCfg_locked q cap).2 acts s hh h
+theorem source_healthy_no_loss (q : Bool) (bytesOf : Nat → Bytes) (acts : List Act) (s : St)
+    (hh : Healthy acts) (h : run (srcCfg q) bytesOf acts init = some s) : NothingLost bytesOf s :=
+  C06.healthy_no_loss _ bytesOf (by rw [srcCfg, source_cfg]) (by rw [srcCfg, source_cfg]) (by rw [srcCfg, source_cfg])
+    (by rw [srcCfg, source_cfg]) acts s hh h
+
+theorem source_queue_drains (bytesOf : Nat → Bytes) (hne : ∀ sid, bytesOf sid ≠ []) (s : St)
+    (hr : Reach (srcCfg true) bytesOf s) (hp : s.pc 0 = .idle) (hlk : s.lock = none) :
+    ∃ acts s', run (srcCfg true) bytesOf acts s = some s' ∧ (∀ a ∈ acts, a.isFault = false) ∧ s'.queue = [] ∧
+      (∀ sid ∈ s.queue, ∃ w, Whole bytesOf s' w sid) := by
+  obtain ⟨acts, s', h1, h2, h3, _, h5, _⟩ := C06.queue_drains (srcCfg true) bytesOf (by rw [srcCfg, source_cfg])
+    (by rw [srcCfg, source_cfg]) (by rw [srcCfg, source_cfg]) hne s hr hp (fun _ => hlk)
+  exact ⟨acts, s', h1, h2, h3, h5⟩
 
 end C06Gen
